@@ -155,12 +155,28 @@ def run_shard(spec, acc):
 
                 HUB.case = {"kind": "arch-continue", "seq": seq}
                 arch = LayeredArchitecture()
+                scribble = rnd.random() < 0.5
                 for sym in seq:
+                    own = list(sym[1]) if isinstance(sym[1], list) else None
                     try:
-                        _apply(arch, sym)
+                        if own is not None:
+                            getattr(arch, sym[0])(own)
+                        else:
+                            _apply(arch, sym)
                     except Exception:  # noqa: BLE001
                         pass
+                    if own is not None and scribble:
+                        # the list handed over is the caller's: emptied / extended after the call, it must not change
+                        # what the architecture recorded
+                        own.clear() if rnd.random() < 0.5 else own.append(rnd.choice(["mod_m", "mod_n"]))
+                        acc.count("lists_scribbled_on_after_the_call")
                     acc.evaluated()
+                if scribble:
+                    try:
+                        str(arch)  # read back once more at the end (the trace hook re-reads accepted definitions)
+                        arch.layer("ZZ_probe")
+                    except Exception:  # noqa: BLE001
+                        pass
             else:
                 seq = [RULE_VOCAB[0], RULE_VOCAB[1]] + [rnd.choice(RULE_VOCAB) for _ in range(rnd.randint(3, 8))]
                 run_rule_sequence(seq, acc)
